@@ -394,3 +394,31 @@ func stripTypeArgs(s string) string {
 	}
 	return b.String()
 }
+
+// HangSite names the outermost function of the module under test on the stack of the goroutine that was running
+// when the watchdog's SIGQUIT arrived (the entry point of the call that does not return; the innermost frame of a
+// spinning loop differs from one dump to the next).
+func HangSite(stderr string) string {
+	lines := strings.Split(stderr, "\n")
+	for i, l := range lines {
+		if !strings.HasPrefix(l, "goroutine ") || !(strings.Contains(l, "[running]") || strings.Contains(l, "[runnable]")) || strings.HasPrefix(l, "goroutine 0 ") {
+			continue
+		}
+		site := ""
+		for _, fl := range lines[i+1:] {
+			if strings.TrimSpace(fl) == "" {
+				break
+			}
+			if strings.HasPrefix(fl, "\t") {
+				continue
+			}
+			if strings.Contains(fl, "pluginsdk/schema.") || strings.Contains(fl, "pluginsdk/atp.") || strings.Contains(fl, "pluginsdk/plugin.") {
+				site = PanicSite(fl)
+			}
+		}
+		if site != "" && site != "?" {
+			return site
+		}
+	}
+	return ""
+}
